@@ -5,7 +5,7 @@
     success the destination, opened afresh, holds in every slot of every selected archive's window a
     value equal to the sum's (NaN where the sum is NaN), and sum-diff over the same window is clean. *)
 From WT Require Import Base.Wrap Base.ListX Model.Time Model.Ring Model.Update Spec.LogSpec Model.Handle Model.Cmd
-  Proofs.TimeProofs Proofs.FetchProofs Proofs.ChainProofs Proofs.HistoryProofs Proofs.CmdProofs Proofs.CopyProofs.
+  Proofs.TimeProofs Proofs.FetchProofs Proofs.ChainProofs Proofs.HistoryProofs Proofs.CmdProofs Proofs.CopyProofs Model.World Proofs.WorldProofs.
 
 Theorem C11_sumcopy_is_copy_of_sum F files dest o now :
   sum_copy_item F files dest o now =
@@ -79,3 +79,18 @@ Proof.
     destruct (tsl_diff true sl dl') as [a b]. cbn [fst snd] in Hemp. rewrite Hemp. reflexivity.
 Qed.
 Print Assumptions C11_sumcopy_stores_the_sum.
+
+(** ** several items: one job (source files of the item, destination of the item) per matched
+    item.  When no destination is a source of any item and the destinations are distinct, a sum-copy
+    that reports success has done for EVERY item what the one-item command does on the files as
+    they were, and no other file has changed. *)
+Theorem C11_every_item_is_sum_copied F o w jobs nows dflt w' out :
+  separate (list Z * Z) snd sum_copy_reads jobs ->
+  run_sum_copies F false o w jobs nows dflt = (w', StOk, out) ->
+  (forall i fs d, nth_error jobs i = Some (fs, d) ->
+     let r := sum_copy_item F (map (wget w) fs) (wget w d) o (now_at nows dflt i) in
+     r_status r = StOk /\
+     wget w' d = match r_dest r with Some h => Some h | None => wget w d end) /\
+  (forall k, (forall j, In j jobs -> k <> snd j) -> wget w' k = wget w k).
+Proof. exact (items_sum_copied_each F o w jobs nows dflt w' out). Qed.
+Print Assumptions C11_every_item_is_sum_copied.
